@@ -19,9 +19,9 @@ var Exempt = map[string]string{
 	"lapack/gonum.Implementation.Iparmq.lwork": "kept for signature compatibility with the reference IPARMQ, unused there too",
 	"lapack/gonum.Implementation.Iparmq.n":     "kept for signature compatibility with the reference IPARMQ, unused there too",
 	"lapack/gonum.Implementation.Iparmq.opts":  "kept for signature compatibility with the reference IPARMQ, unused there too",
-	"integrate/quad.Hermite.hermpolyAsyAiry.i":  "the Airy-region asymptotic expansion does not depend on the node index; the parameter mirrors its Bessel-region sibling",
-	"interp.Constant.Predict.x":                 "a constant predictor ignores its argument by definition (Predictor interface)",
-	"interp.fritschButlandEdgeDerivative.ys":    "the edge derivative is computed from the slopes alone; ys kept for symmetry with the interior formula",
+	"integrate/quad.Hermite.hermpolyAsyAiry.i": "the Airy-region asymptotic expansion does not depend on the node index; the parameter mirrors its Bessel-region sibling",
+	"interp.Constant.Predict.x":                "a constant predictor ignores its argument by definition (Predictor interface)",
+	"interp.fritschButlandEdgeDerivative.ys":   "the edge derivative is computed from the slopes alone; ys kept for symmetry with the interior formula",
 }
 
 // Run checks every function with a body in the scope.
